@@ -196,6 +196,31 @@ def uses_stack(g):
     return any(k in txt for k in ("PUSH", "POP", "PEEK", "DROP"))
 
 
+# the aliases of the emitted `generics` module that wrap runtime repetitions (everything else there is a re-export, a seq! /
+# choices! instantiation, or the Skipped type, which the translation model covers): what Model/Translate.v's TRep k mn mx stands
+# for.  predefined_node::RepMinMax<T, IGNORED, SKIP, MIN, MAX>, RepMin<T, IGNORED, SKIP, MIN>, RepExact<T, IGNORED, SKIP, N>.
+U = "::core::primitive::usize"
+GENERICS_MODEL = {
+    "Rep": "<'i,constSKIP:%s,T>=predefined_node::Rep<T,Skipped<'i>,SKIP>" % U,
+    "RepOnce": "<'i,constSKIP:%s,T>=predefined_node::RepOnce<T,Skipped<'i>,SKIP>" % U,
+    "RepExact": "<'i,constSKIP:%s,T,constN:%s>=predefined_node::RepExact<T,Skipped<'i>,SKIP,N>" % (U, U),
+    "RepMin": "<'i,constSKIP:%s,T,constMIN:%s>=predefined_node::RepMin<T,Skipped<'i>,SKIP,MIN>" % (U, U),
+    "RepMax": "<'i,constSKIP:%s,T,constMAX:%s>=predefined_node::RepMinMax<T,Skipped<'i>,SKIP,0,MAX>" % (U, U),
+    "RepMinMax": "<'i,constSKIP:%s,T,constMIN:%s,constMAX:%s>=predefined_node::RepMinMax<T,Skipped<'i>,SKIP,MIN,MAX>" % (U, U, U),
+}
+
+
+def generics_defs_ok(r):
+    """-> list of (alias, emitted, expected) that differ from GENERICS_MODEL (unknown aliases: expected None)"""
+    bad = []
+    for x in (r.field("gendefs") or [])[1:]:
+        name, txt = x[0], bytes.fromhex(x[1]).decode("utf8", "replace")
+        want = GENERICS_MODEL.get(name)
+        if want != txt:
+            bad.append((name, txt, want))
+    return bad
+
+
 # ------------------------------------------------------------ V1
 def v1(ctx, n_random, which=("opt",)):
     """the real generator's emitted types == Model/Translate.v on the same pest AST, for the fixed corpus and
@@ -218,6 +243,14 @@ def v1(ctx, n_random, which=("opt",)):
                 bad += 1
                 ctx.violation("the generator emits something the extractor cannot classify (%s)" % (r.anomalies()[:2],),
                               {"grammar": texts[int(gid[1:])], "which": w}, found_input=False)
+                continue
+            gd = generics_defs_ok(r)
+            if gd:
+                bad += 1
+                if bad <= 4:
+                    ctx.violation("the emitted generics module defines %s differently from what the generator model assumes" % gd[0][0],
+                                  {"grammar": texts[int(gid[1:])], "which": w, "alias": gd[0][0], "emitted": gd[0][1], "model": gd[0][2],
+                                   "broken": "T1/V1 generics aliases = GENERICS_MODEL (vlib/gencore.py)"}, found_input=False)
                 continue
             skip, rules = grammar.typed_from_dump(r)
             m = mt.get(gid)
